@@ -469,11 +469,11 @@ class CallMixin:
 
     def fstr_as_u(self, f):
         """Structured strings as opaque terms: injective in their integer components (A-FMT)."""
-        skel = '|'.join(p if isinstance(p, str) else '%d' for p in f.parts)
-        ints = [to_int_term(p) for p in f.parts if not isinstance(p, str)]
-        fn = z3.Function('fstr_' + ''.join(ch if ch.isalnum() else '_' for ch in skel) + f'_{len(ints)}',
-                         *([z3.IntSort()] * len(ints) + [U]))
-        return fn(*ints)
+        skel = '|'.join(p if isinstance(p, str) else ('%s' if isinstance(p, Opaque) else '%d') for p in f.parts)
+        comps = [(p.term if isinstance(p, Opaque) else to_int_term(p)) for p in f.parts if not isinstance(p, str)]
+        fn = z3.Function('fstr_' + ''.join(ch if ch.isalnum() else '_' for ch in skel) + f'_{len(comps)}',
+                         *([c.sort() for c in comps] + [U]))
+        return fn(*comps) if comps else z3.Function('str_as_U', z3.StringSort(), U)(z3.StringVal(''.join(f.parts)))
 
     def promote_dict_to_smap(self, ref, st, key_kind='Str'):
         """A concrete-key dict that receives a symbolic key becomes a symbolic map (in place)."""
